@@ -6,7 +6,7 @@ VARIABLE hist
 GenInit == Init /\ hist = <<obs>>
 GenNext == Next /\ hist' = Append(hist, obs')
 GenSpec == GenInit /\ [][GenNext]_<<vars, hist>>
-View == <<data, lo, hi, ranged, pos, parts>>
+View == <<data, data2, lo, hi, ranged, pos, parts>>
 Emit == PrintT(<<"BEHAV", ToJson(hist')>>)
 Rng1 == {<<0, 4>>}
 Rng3 == {<<0, 4>>, <<2, 2>>, <<4, 0>>}
